@@ -239,3 +239,87 @@ LEMMAS = {'V3': dict(jobs=jobs_V3, run=run_V3, units=['rv64'], rv64=True,
     stubs=['h_* emitters := no bytes (V1)', 'allocMemoryPages := fresh buffer; Cpu::hasRVV := false (scalar back-end)', 'RV64 semantics: engine/rv64sem.py', 'ld.lld resolves the pc-relative references of the runtime'],
     outside='v2 (software-AES F/E mix with table lookups), the vector back-end')}
 UNITS = UNITS
+
+# ------------------------------------------------------------------------------------------------ V6: randomx_riscv64_data_init (the loop around the SuperscalarHash routine)
+def run_V6(ctx, case):
+    """randomx_riscv64_data_init(cache, dataset, startItem, endItem) as the constructor places and patches it: one call of the SuperscalarHash routine per item,
+    x8-x15 stored at dataset + 64*(item - startItem); callee-saved registers and sp restored; the routine is an abstract call with the contract V5 proves"""
+    q = Q(60); mod = Module(ctx['ll']['rv64']); L = state_layout(mod); npaths = [0]; syms, text = rv64_linked(ctx['tag'] + '-v6-%d' % os.getpid())
+    tj = resolve(NamedT('class.randomx::JitCompilerRV64', mod)); oj = tj.layout()[0]; tag = 'randomx_riscv64_data_init'
+    DSI = [z3.Function('DSI%d' % k, z3.BitVecSort(64), z3.BitVecSort(64)) for k in range(8)]
+    src_ = open(os.path.join(build.REPO, 'src', 'jit_compiler_rv64.cpp')).read()
+    def const(nm):
+        mm = re.search(r'constexpr\s+\w+\s+%s\s*=\s*(\d+)\s*;' % nm, src_); return int(mm.group(1))
+    align = const('CodeAlign'); SSH = ((align + align + const('MaxRandomXInstrCodeSize') * build.config_constants().get('RANDOMX_PROGRAM_MAX_SIZE', 384)) + align - 1) // align * align + P.CACHE_ACCESSES * align
+    start = z3.BitVec('startItem', 64); count = z3.BitVec('itemCount', 64)
+    def one(fk):
+        it = Interp(mod); it.fork = fk; fk['pc'] += [z3.UGE(count, 1), z3.ULE(count, 3), z3.ULT(start, 1 << 32)]
+        H = life.Heap(it, fail=False); cxxlib.install(it, H)
+        it.mem.alloc(len(text) + 64, 'text'); it.mem.objs['text']['addr'] = 0x10000000
+        for k, b in enumerate(text): it.mem.objs['text']['bytes'][k] = b
+        it.extern = {nm: Ptr('text', off) for nm, off in syms.items()}; life.run_ctors(it, mod)
+        def alloc_pages(s_, a):
+            n = a[0] if is_c(a[0]) else z3.simplify(a[0]).as_long(); return s_.mem.alloc(n, 'codebuf')
+        it.hooks['allocMemoryPages'] = alloc_pages
+        for f in mod.funcs:
+            if f.endswith('Cpu6hasRVVEv'): it.hooks[f] = lambda s_, a: 0
+        J = it.mem.alloc(tj.size(), 'J')
+        for k in range(0, tj.size() - tj.size() % 8, 8): it.mem.store(Ptr('J', k), 0, 8)
+        it.call('_ZN7randomx15JitCompilerRV64C2Ev', [J]); code = it.mem.load(Ptr('J', oj[0] + L['code']), 8); CODE = code.obj
+        entryDI = [it.mem.load(Ptr('J', oj[k]), 8) for k in range(5, 9)]
+        mem = it.mem; mem.mkarr('dataset', P.DATASET_BASE + P.DATASET_EXTRA); D0 = mem.objs['dataset']['arr']; mem.alloc(64, 'cacheobj'); mem.alloc(64, 'cachemem'); mem.store(Ptr('cacheobj', 0), Ptr('cachemem', 0), 8); mem.share('cacheobj', 'cachemem')
+        STK = 128; mem.alloc(STK + 16, 'stack')
+        for k in range(0, STK + 16, 8): mem.store(Ptr('stack', k), z3.BitVec('stk%d' % k, 64), 8)
+        m = Machine(mem, CODE, it); entry = {r: z3.BitVec('x%d_entry' % r, 64) for r in range(1, 32)}
+        for r in range(1, 32): m.x[r] = entry[r]
+        for r in range(32): m.f[r] = z3.BitVec('f%d_entry' % r, 64)
+        dsoff = z3.BitVec('dataset_off', 64); fk['pc'] += [z3.ULE(dsoff, P.DATASET_BASE + P.DATASET_EXTRA), z3.ULE(dsoff + 64 * count, P.DATASET_BASE + P.DATASET_EXTRA)]
+        m.x[10] = Ptr('cacheobj', 0); m.x[11] = Ptr('dataset', dsoff); m.x[12] = start; m.x[13] = start + count; m.x[1] = Ptr('caller', 0); m.x[2] = Ptr('stack', STK); m.frm = z3.BitVec('frm', 3)
+        calls = []
+        def chk(c, what):
+            q.n += 1; q.unsat += bool(c); q.sat += (not c)
+            if not c: q.failed.append(('%s: %s' % (tag, what), {}))
+        chk(any(isinstance(e, Ptr) and e.obj == CODE and e.off == 4096 for e in entryDI), 'the constructor records the entry point of the initialiser at buffer offset 4096')
+        try:
+            m.pc = 4096; steps = 0
+            while True:
+                if m.pc == SSH:
+                    calls.append((m.x[6], m.x[7], m.x[3]))
+                    for k in range(8): m.x[8 + k] = DSI[k](bv(m.x[7], 64))
+                    for r_ in (7, 28, 29, 30, 31): m.x[r_] = z3.BitVec('x%d_clobbered_%d' % (r_, len(calls)), 64)
+                    m.pc = m.x[1].off; continue
+                r = m.step(); steps += 1
+                if steps > 300: raise Fault('step bound exceeded (unwinding assertion)')
+                if r is None: continue
+                if r[0] == 'ret': retv = r[1]; break
+                if r[0] == 'jmp':
+                    if isinstance(r[1], tuple): raise Fault('symbolic jump')
+                    m.pc = r[1]
+                elif r[0] == 'jcc':
+                    if m.decide(r[1]): m.pc = r[2]
+        except (Fault, OOB) as e:
+            chk(False, 'does not execute: %s' % e); return
+        npaths[0] += 1; pc = fk['pc']
+        sol = z3.Solver(); sol.add(*pc); sol.check(); n = sol.model().eval(count, model_completion=True).as_long()
+        q.prove(pc, count == n, '%s: this path initialises exactly %d item(s)' % (tag, n))
+        chk(len(calls) == n, 'one call of the SuperscalarHash routine per item (%d calls for %d items)' % (len(calls), n))
+        exp = D0
+        for k_, (c0, itm, gp) in enumerate(calls[:n]):
+            chk(isinstance(c0, Ptr) and c0.obj == 'cachemem' and c0.off == 0, 'call %d: x6 = cache memory' % k_)
+            chk(isinstance(gp, Ptr) and gp.obj == CODE and gp.off == POOL, 'call %d: x3 = literal pool' % k_)
+            q.prove_eq(pc, itm, start + k_, '%s: call %d: item number = startItem + %d' % (tag, k_, k_), 64)
+            for w in range(8):
+                for b_ in range(8): exp = z3.Store(exp, dsoff + 64 * k_ + 8 * w + b_, z3.Extract(8 * b_ + 7, 8 * b_, DSI[w](start + k_)))
+        q.prove_array_eq(pc, mem.objs['dataset']['arr'], exp, '%s: dataset after the call == the items at memory + 64*(item - startItem), nothing else written' % tag)
+        chk(isinstance(retv, Ptr) and retv.obj == 'caller', 'returns to the caller')
+        for r_ in (3, 8, 9): q.prove_eq(pc, m.x[r_], entry[r_], '%s: callee-saved %s restored' % (tag, XN[r_]), 64)
+        chk(isinstance(m.x[2], Ptr) and m.x[2].obj == 'stack' and m.x[2].off == STK, 'stack pointer restored')
+        extent_checks(q, pc, mem, tag)
+    res, nq = explore(one, limit=8); q.n += nq
+    ok = npaths[0] == 3; q.n += 1; q.unsat += ok; q.sat += (not ok)
+    if not ok: q.failed.append(('%s: expected the 1-, 2- and 3-item paths, got %d' % (tag, npaths[0]), {}))
+    return result('V6', tag, q, paths=npaths[0])
+
+LEMMAS['V6'] = dict(jobs=lambda ctx: ['data_init'], run=run_V6, units=['rv64'], rv64=True, functions=['JitCompilerRV64::JitCompilerRV64 (placement, call patch via emitJump)', 'assembled runtime: randomx_riscv64_data_init'],
+    doc='the dataset initialiser of the scalar RISC-V runtime as the constructor places and patches it: one call of the SuperscalarHash routine per item of [startItem, endItem) with the right item number, cache and literal-pool pointers; x8-x15 stored at dataset + 64*(item - startItem); exactly the requested bytes written; callee-saved registers and sp restored',
+    bound='1 to 3 items (loop body identical for every item), symbolic start and dataset address', symbolic='startItem, itemCount, dataset offset, entry registers, stack content', stubs=['SuperscalarHash routine := abstract call with the contract V5 proves'])
